@@ -133,8 +133,9 @@ func (ix *PointIndex) InsertPolygon(polygon geom.Polygon) error {
 // InsertPoint inserts a Point by its absolute coord
 func (ix *PointIndex) InsertPoint(point geom.Point) error {
 	intPoint := intgeom.FromGeomPoint(point)
-	deepestX := int((intPoint.X() - ix.intExtent.MinX()) / ix.deepestRes)
-	deepestY := int((intPoint.Y() - ix.intExtent.MinY()) / ix.deepestRes)
+	// floor (not truncate), so that a point just left of or below the extent does not end up in column or row 0
+	deepestX := int(mathhelp.FloorDiv(intPoint.X()-ix.intExtent.MinX(), ix.deepestRes))
+	deepestY := int(mathhelp.FloorDiv(intPoint.Y()-ix.intExtent.MinY(), ix.deepestRes))
 	return ix.InsertCoord(deepestX, deepestY)
 }
 
